@@ -518,6 +518,17 @@ fn extract_fn(
         }
     };
 
+    // the same function as a contract-only stub (used when the body is outside the supported subset
+    // or the overlay no longer applies: callers are then still checked against the contract)
+    let verus_stub = quote! {
+        #[verifier::external_body]
+        pub #constness fn #name_id #generics ( #inputs_ts ) -> ( #ret_id : #ret_ty ) #where_clause
+        #spec
+        {
+            unimplemented!()
+        }
+    };
+
     // overlay anchors that were never used are an error (lost anchor => undecided)
     if let Some(o) = ov {
         for (sect, n) in [("loops", rw.loop_no), ("closures", rw.closure_no), ("before_return", rw.return_no)] {
@@ -572,6 +583,7 @@ fn extract_fn(
         "raw": flat(&f.block),
         "canon": canon_body,
         "verus": pp::pretty(&verus_fn, 1),
+        "verus_stub": pp::pretty(&verus_stub, 1),
         "rules": rw.rules,
         "lits": rw.lits,
         "errors": rw.errors,
